@@ -566,9 +566,14 @@ class Generator:
             raise LostAnchor("%s :: %s not found" % (file, name))
         s = src.sig
         text = src.text[s[it.kw].start:s[it.body_open].end]
+        rules = {"R3": 1}
+        if opts.get("flags", "") == "no-supertraits":
+            # R4b: marker / formatting supertraits (Debug + Send + Sync) are dropped
+            text = re.sub(r":[^{]*\{$", " {", text.strip())
+            rules["R4"] = 1
         self.out.emit("pub " + text + "\n", "source", src=src, byte=s[it.kw].start)
         self.cur_trait = (file, name, it)
-        self.items.append(self.item_meta(src, file, [name], it, {"R3": 1}))
+        self.items.append(self.item_meta(src, file, [name], it, rules))
 
     def do_trait_fn(self, arg, body, rel, lineno):
         if getattr(self, "cur_trait", None) is None:
